@@ -7,6 +7,13 @@ from ..refs import coapwire as cw
 EP = "10.0.0.1:5683"
 
 
+LBODY = 300
+
+
+def lpad(n):
+    return (b"%d" % n + b"." * LBODY)[:LBODY]
+
+
 def peer_addr(i):
     return "10.0.6.%d:%d" % (i + 1, 41000 + i)
 
@@ -32,12 +39,21 @@ def scenario(exe, r, run, stats, witness):
     w = world.World(exe, seed=r.getrandbits(30))
     sim = world.Sim(w, latency=r.choice([1, 5, 40]))
     witness["script"] = w.script
-    sim.add_node(0, session_timeout=r.choice([5, 300]))
+    # half of the runs: resource "L" whose state is larger than one block (counter padded to
+    # LBODY bytes, path MTU 128): a notification carries block 0, the observer fetches the
+    # rest with plain Block2 requests (RFC 7959 2.6)
+    big = r.random() < 0.5
+    kw = {"srv_mtu": 128, "block_mode": 1} if big else {}
+    sim.add_node(0, session_timeout=r.choice([5, 300]), **kw)
     sim.cmd("ep 0 udp %s" % EP)
     resources = {"o": 0, "p": 0, "c": 2}
     for name, flags in resources.items():
         sim.cmd("res 0 %s body=counter obs=1%s" % (name.encode().hex(),
                                                      " flags=%d" % flags if flags else ""))
+    if big:
+        resources["L"] = 0
+        sim.cmd("res 0 %s body=cpad:%d large=1 obs=1" % (b"L".hex(), LBODY))
+    fetches = {}           # fetch token -> state of one body being collected by a peer
     counter = dict((k, 0) for k in resources)
     deleted = set()
     obs = {}                 # (peer, res, query) -> current Obs
@@ -156,6 +172,40 @@ def scenario(exe, r, run, stats, witness):
                 return
             is_notif = m["type"] in (0, 1) and m["code"] == 0x45 and \
                 any(n == 6 for n, _ in m["options"])
+            b2 = [v for n, v in m["options"] if n == 23]
+            if b2 and m["code"] == 0x45:
+                v = int.from_bytes(b2[0], "big") if b2[0] else 0
+                num, more, szx = v >> 4, (v >> 3) & 1, v & 7
+                etag = tuple(x for n, x in m["options"] if n == 4)
+                th = m["token"].hex()
+                f = fetches.get((addr, th))
+                if f is None and num == 0 and more and i not in silent and r.random() < 0.8:
+                    # first block of a body (notification or registration reply): collect it
+                    seq[0] += 1
+                    ft = bytes([0xF0 + i, seq[0] & 255, seq[0] >> 8])
+                    f = {"parts": [m["payload"]], "etag": etag, "szx": szx, "t0": sm.now,
+                         "observe": any(n == 6 for n, _ in m["options"])}
+                    fetches[(addr, ft.hex())] = f
+                    th = ft.hex()
+                elif f is not None and num == len(f["parts"]):
+                    if etag != f["etag"]:
+                        f["abandoned"] = "etag-changed"
+                        more = 0
+                    else:
+                        f["parts"].append(m["payload"])
+                    if not more and "abandoned" not in f:
+                        f["done"] = sm.now
+                else:
+                    f = None
+                if f is not None and more and "abandoned" not in f:
+                    seq[0] += 1
+                    nv = (len(f["parts"]) << 4) | f["szx"]
+                    rq = cw.msg(1, type=0, mid=(0x5800 + seq[0]) & 0xffff,
+                                token=bytes.fromhex(th), options=[
+                                    (11, b"L"), (23, nv.to_bytes((nv.bit_length() + 7) // 8,
+                                                                 "big"))])
+                    sm.inject(to, frm, cw.encode(rq, "udp"), 2)
+                    stats["block_fetches"] = stats.get("block_fetches", 0) + 1
             if is_notif and i in rst_next:
                 which = rst_next.pop(i)
                 mid = m["mid"]
@@ -284,12 +334,27 @@ def scenario(exe, r, run, stats, witness):
             if o.res in deleted:
                 continue
             want = str(counter[o.res]).encode()
+            if o.res == "L" and o.notifs and o.notifs[-1][4]:
+                want = lpad(counter["L"])[:len(o.notifs[-1][4])]     # (its first block)
             if not o.notifs or o.notifs[-1][4] != want:
                 run.violation("last-state-not-notified", wv,
                               "observer %s token %s still registered; resource state %r, last "
                               "notification carried %r" %
                               (o.peer, o.tok, want, o.notifs[-1][4] if o.notifs else None))
-    sig = (npeers, nsteps, ploss, sim.latency,
+    # bodies the observers collected block by block: every block from one representation
+    # (same ETag) - the pieces then are that representation
+    for (paddr, ft), f in fetches.items():
+        if "done" not in f:
+            stats["bodies_not_completed"] = stats.get("bodies_not_completed", 0) + 1
+            continue
+        stats["bodies_collected"] = stats.get("bodies_collected", 0) + 1
+        got = b"".join(f["parts"])
+        digits = got.split(b".")[0]
+        if not digits.isdigit() or got != lpad(int(digits)):
+            run.violation("block-wise-notification-body-mixed", dict(witness, peer=paddr),
+                          "observer %s collected, under one ETag, a body that is no state the "
+                          "resource ever had: %r" % (paddr, got))
+    sig = (npeers, nsteps, ploss, sim.latency, big,
            tuple(sorted(set(o.dereg_cause for o in allobs if o.dereg_cause))))
     return w, sig
 
@@ -324,7 +389,8 @@ def main(tier):
     run.rule = ("histories of register / change (bursts between I/O steps) / cancel by Observe=1 / "
                 "Reset to the latest or to an older notification / silent peer (failed CON "
                 "notification) / resource deletion / re-registration with the same or a new token "
-                "by 1..4 raw observers on 3 resources with and without query (default and "
+                "by 1..4 raw observers on 3 resources (half of the runs a fourth whose state is larger than "
+                "one block: notifications carry block 0, observers fetch the rest) with and without query (default and "
                 "NOTIFY_CON mode), with loss and duplication of datagrams and virtual-time jumps; "
                 "distinct_nontrivial = distinct (peers, length, loss, latency, deregistration "
                 "causes seen)")
@@ -349,4 +415,5 @@ def main(tier):
     run.require("notifications", stats.get("notifications", 0), 3000)
     run.require("registrations", stats.get("registrations", 0), 500)
     run.require("still_registered", stats.get("still_registered", 0), 100)
+    run.require("bodies_collected_block_by_block", stats.get("bodies_collected", 0), 100)
     return run.finish()
